@@ -171,6 +171,11 @@ func apply[S ~[]E, E selectable](list S, submissionRequirement SubmissionRequire
 		return nil, errors.Join(ErrNoCredentials, fmt.Errorf("submission requirement (%s) has less matches (%d) than minimal required (%d)", submissionRequirement.Name, selectableCount, *submissionRequirement.Min))
 	}
 	// take max if both min and max are set
+	if submissionRequirement.Max == nil {
+		// no upper bound: take all
+		noMax := len(list)
+		submissionRequirement.Max = &noMax
+	}
 	index := 0
 	for _, member := range list {
 		if !member.empty() {
